@@ -65,6 +65,7 @@ fn parse_args() -> Args {
             "--case" => a.only_case = it.next().unwrap().parse().ok(),
             "-v" => a.verbose = true,
             p if a.prop.is_empty() => a.prop = p.to_string(),
+            _ if a.prop == "tr-run" => {}
             other => panic!("unexpected argument {other}"),
         }
     }
